@@ -17,3 +17,6 @@ pub assume_specification [i32::abs] (a: i32) -> (r: i32)
 pub assume_specification [i32::pow] (a: i32, n: u32) -> (r: i32)
     requires a == 2, n < 31,
     ensures n <= 16 ==> r as int == p2(n as int);
+pub assume_specification [u32::pow] (a: u32, n: u32) -> (r: u32)
+    requires a == 2, n < 32,
+    ensures n <= 16 ==> r as int == p2(n as int);
